@@ -8,6 +8,8 @@ regex       every ordered pair (s, t) of short punctuation strings: '^' + regexE
 url         every string of length <= 2 over ASCII + 6 non-ASCII characters: allowed output alphabet, reversible.
 callbacks   arraySort with comparators returning fractional / negative / huge / tiny numbers (only the sign counts);
             arrayIndexOf / arrayLastIndexOf with a match function returning values of every truthiness class.
+regexctx    regexEscape of ~60 strings whose metacharacters only matter in context ('a{2}', '(?i)a', '[^a]', ...).
+lastfit     string/array searches with the match at the last (first) position where it still fits, every start index.
 fresh       short histories r1 = f(args); mutate r1 in place; r2 = f(same args) for every container-returning function:
             results are never shared between calls.
 """
@@ -18,6 +20,7 @@ import os
 import re
 import time
 import urllib.parse
+import warnings
 
 from ..common import HarnessError, canon, load_impl
 from ..engine import bfs
@@ -1257,6 +1260,192 @@ def fam_callbacks(arg):
 
 
 # ---------------------------------------------------------------------------------------------------------------
+# regexctx: regexEscape of strings in which a metacharacter only matters in CONTEXT
+# ---------------------------------------------------------------------------------------------------------------
+
+REGEX_CONTEXT = [
+    # quantifiers
+    'a{2}', 'a{1,2}', 'a{,2}', 'a{2,}', 'a{2}?', 'a+', 'a*', 'a?', 'a+?', 'a*?', 'a??', 'a{', 'a}',
+    # groups, look-around, inline flags, comments, back-references
+    '(a)', '(?:a)', '(?i)a', '(?s).', '(?m)^a', '(?x) a', '(?P<n>a)', '(?<n>a)', '(a)\\1', '(?=a)a', '(?!b)a', '(?<=a)b', '(?<!b)a', '(?#c)a',
+    # classes, alternation, dot, anchors
+    '[^a]', '[a-b]', '[ab]', '[]a]', '[[:alpha:]]', 'a|b', '.', '.*', 'a.b', '^a$', '^a', 'a$', '$^', 'a-b',
+    # escapes
+    '\\d', '\\w', '\\s', '\\b', '\\.', '\\\\', '\\n', '\\x41', '\\u0041', '\\0', '\\A', '\\Z', '\\',
+    # free-spacing characters and lone brackets
+    '#a', 'a b', '{', '}', '(', ')', '[', ']',
+]
+REGEX_CTX_EXTRA = ['\n', 'a\n', '\t', 'A', 'AA', 'aA', 'aab', 'aaaa', 'abab', 'axb', 'a\nb', 'n', 'x41', 'u0041', 'alpha', ':']
+
+
+def regex_ctx_pool():
+    out = ['']
+    for n in (1, 2, 3):
+        out.extend(''.join(t) for t in itertools.product('abA0 ', repeat=n))
+    return out + REGEX_CTX_EXTRA
+
+
+def regex_ctx_targets(s):
+    """The strings the escaped pattern of s is tried on: s itself, every pool string (what the UNESCAPED pattern would
+    match is among them: 'aa' for 'a{2}', 'A' for '(?i)a', '0' for '\\d', ...), s with one character deleted, s with one
+    character replaced (two ways)."""
+    out = [s] + regex_ctx_pool()
+    for i, ch in enumerate(s):
+        out.append(s[:i] + s[i + 1:])
+        out.append(s[:i] + ('y' if ch == 'x' else 'x') + s[i + 1:])
+        out.append(s[:i] + ('c' if ch == 'b' else 'b') + s[i + 1:])
+    return out
+
+
+def check_regexctx(case, acc):
+    bs = load_impl()
+    from bare_script.library import SCRIPT_FUNCTIONS as F  # pylint: disable=import-outside-toplevel,import-error
+    s = case['s']
+    esc = impl_call(bs, 'regexEscape', [s])
+    acc.evals += 1
+    if not isinstance(esc, str):
+        acc.violation(case, 'a string', esc, 'regexEscape of a string is not a string')
+        return 0
+    rx = impl_call(bs, 'regexNew', ['^' + esc + '$'])
+    loose = impl_call(bs, 'regexNew', [esc])
+    if rv.rtype(rx) != 'regex' or rv.rtype(loose) != 'regex':
+        acc.violation(dict(case, escaped=esc), 'a regex', [rx, loose], 'the escaped text is not a valid regular expression')
+        return 0
+    n = 0
+    for t in ([case['t']] if 't' in case else regex_ctx_targets(s)):
+        n += 1
+        m = F['regexMatch']([rx, t], None)
+        acc.evals += 1
+        if (m is not None) != (s == t):
+            acc.violation({'s': s, 't': t, 'escaped': esc}, s == t, m is not None, "regexMatch(regexNew('^' + regexEscape(s) + '$'), t) succeeds iff s == t")
+    # unanchored: the escaped pattern finds s (and exactly s) inside a longer text
+    n += 1
+    m = F['regexMatch']([loose, 'xy' + s + 'yx'], None)
+    acc.evals += 1
+    if not isinstance(m, dict) or m.get('index') != 2 or m.get('groups', {}).get('0') != s:
+        acc.violation({'s': s, 'escaped': esc, 'embedded_in': 'xy' + s + 'yx'}, {'index': 2, 'match': s}, m, 'the escaped pattern does not find exactly s inside a longer text')
+    return n
+
+
+def fam_regexctx(arg):
+    acc = Acc('regexctx')
+    for i in arg:
+        s = REGEX_CONTEXT[i]
+        acc.cases += check_regexctx({'s': s}, acc)
+        unescaped = None
+        try:
+            with warnings.catch_warnings():
+                warnings.simplefilter('ignore')
+                unescaped = re.compile('^(?:' + s + ')$')
+        except re.error:
+            pass
+        wrong = sum(1 for t in regex_ctx_targets(s) if unescaped is not None and (unescaped.search(t) is not None) != (s == t))
+        if wrong:
+            acc.nontrivial += 1     # left unescaped, this string would match something else or not match itself
+        acc.outcome((s, wrong))
+        if i % 9 == 0:
+            acc.sample({'s': s, 'escaped': impl_call(load_impl(), 'regexEscape', [s]), 'targets': len(regex_ctx_targets(s)), 'targets_the_unescaped_pattern_gets_wrong': wrong})
+    return acc.result()
+
+
+# ---------------------------------------------------------------------------------------------------------------
+# lastfit: searches whose match sits at the last (first) position where it still fits, start index anywhere
+# ---------------------------------------------------------------------------------------------------------------
+
+LASTFIT_LEN = {'quick': (6, 5), 'thorough': (7, 6)}     # (max string length over {a,b}, max array length over {1,'x',null})
+LASTFIT_VALUES = [('1.0', 1.0), ("'x'", 'x'), ('null', None)]
+
+
+def lastfit_strings(maxlen, firsts):
+    for n in range(1, maxlen + 1):
+        for t in itertools.product('ab', repeat=n):
+            if 'ab'.index(t[0]) in firsts:
+                yield ''.join(t)
+
+
+def lastfit_string_count(maxlen):
+    # per string of length n: every substring (n(n+1)/2) x (n start indices + omitted) x 2 search functions, + 2 x n(n+1)/2 starts/ends-with
+    return sum(2 ** n * (n * (n + 1) // 2) * ((n + 1) * 2 + 2) for n in range(1, maxlen + 1))
+
+
+def lastfit_array_count(maxlen):
+    return sum(3 ** n * 3 * (n + 1) * 2 for n in range(1, maxlen + 1))
+
+
+def check_lastfit(case, acc):
+    srt = sruntime()
+    name = case['fn']
+    if case['kind'] == 'string':
+        args = [('str', case['s']), ('str', case['t'])] + ([] if case['start'] is None else [num(case['start'])])
+        want = rl.call(name, [case['s'], case['t']] + ([] if case['start'] is None else [float(case['start'])]))
+        got, text = srt.call(name, args)
+    else:
+        arr = [LASTFIT_VALUES[i][1] for i in case['idx']]
+        srt.globals['la'] = arr
+        vtext, value = LASTFIT_VALUES[case['v']]
+        text = f"rr = {name}(la, {vtext}{'' if case['start'] is None else ', ' + num(case['start'])[2]})"
+        script = srt.cache.get(text)
+        if script is None:
+            script = srt.cache[text] = srt.bs.parse_script(text)
+        srt.globals.pop('rr', None)
+        srt.bs.execute_script(script, srt.options)
+        got = srt.globals.get('rr')
+        want = rl.call(name, [list(arr), value] + ([] if case['start'] is None else [float(case['start'])]))
+        if canon(arr) != canon([LASTFIT_VALUES[i][1] for i in case['idx']]):
+            acc.violation(case, 'array unchanged', arr, 'a search changed the array')
+    acc.evals += 1
+    if want.value is UNSPECIFIED:
+        acc.unspecified += 1
+        return None
+    if canon(got) != canon(want.value):
+        acc.violation(dict(case, text=text), want.value, got, 'search result differs from the reference (match at the last/first position where it still fits?)')
+    return want.value
+
+
+def fam_lastfit(arg):
+    tier, kind, firsts = arg
+    acc = Acc('lastfit')
+    maxs, maxa = LASTFIT_LEN[tier]
+    if kind == 'string':
+        for s in lastfit_strings(maxs, firsts):
+            n = len(s)
+            for i in range(n):
+                for k in range(i + 1, n + 1):
+                    t = s[i:k]
+                    for name in ('stringIndexOf', 'stringLastIndexOf'):
+                        for start in [None] + list(range(n)):
+                            acc.cases += 1
+                            res = check_lastfit({'kind': 'string', 'fn': name, 's': s, 't': t, 'start': start}, acc)
+                            acc.outcome((name, res, n))
+                            if res is not None and res >= 0 and (res == n - len(t) or res == 0 or res == start):
+                                acc.nontrivial += 1     # found at the last fitting position, at position 0, or exactly at the start index
+                    for name in ('stringStartsWith', 'stringEndsWith'):
+                        acc.cases += 1
+                        res = check_lastfit({'kind': 'string', 'fn': name, 's': s, 't': t, 'start': None}, acc)
+                        acc.outcome((name, res, n))
+                        if res is True:
+                            acc.nontrivial += 1
+            if len(s) == maxs and s.endswith('ab'):
+                acc.sample({'string': s, 'searches': 'every substring, every start index 0..len-1 and omitted'})
+    else:
+        nv = len(LASTFIT_VALUES)
+        for n in range(1, maxa + 1):
+            for idx in itertools.product(range(nv), repeat=n):
+                if idx[0] not in firsts:
+                    continue
+                for v in range(nv):
+                    for name in ('arrayIndexOf', 'arrayLastIndexOf'):
+                        for start in [None] + list(range(n)):
+                            acc.cases += 1
+                            res = check_lastfit({'kind': 'array', 'fn': name, 'idx': list(idx), 'v': v, 'start': start}, acc)
+                            acc.outcome((name, res, n))
+                            if res is not None and res >= 0 and (res in (0, n - 1) or res == start):
+                                acc.nontrivial += 1
+        acc.sample({'arrays': f'every array of length 1..{maxa} over 1, "x", null starting with {[LASTFIT_VALUES[i][0] for i in firsts]}', 'searches': 'each value, every start index and omitted'})
+    return acc.result()
+
+
+# ---------------------------------------------------------------------------------------------------------------
 
 def families(tier):
     b = BOUNDS[tier]
@@ -1300,10 +1489,19 @@ def families(tier):
                f'{len(CB_FIND_ELEMENTS)} values of every truthiness class with a match function that returns the element, start omitted / 0.0 / 1.0',
                expected=sum(len(CB_SORT_ELEMENTS) ** n for n in range(CB_MAXLEN[tier][0] + 1)) * len(CB_COMPARATORS)
                + sum(len(CB_FIND_ELEMENTS) ** n for n in range(CB_MAXLEN[tier][1] + 1)) * 2 * len(CB_STARTS)),
+        Family('regexctx', fam_regexctx, split(list(range(len(REGEX_CONTEXT))), 8),
+               f'{len(REGEX_CONTEXT)} strings in which a metacharacter only matters in context (every construct of the Python/JS regex dialects once); the anchored '
+               f'escaped pattern against s, {len(regex_ctx_pool())} short strings over a,b,A,0,space and specials, s with one character deleted or replaced; and unanchored inside a longer text',
+               expected=sum(len(regex_ctx_targets(x)) + 1 for x in REGEX_CONTEXT)),
+        Family('lastfit', fam_lastfit,
+               [(tier, 'string', [i]) for i in range(2)] + [(tier, 'array', [i]) for i in range(len(LASTFIT_VALUES))],
+               f'stringIndexOf/stringLastIndexOf/stringStartsWith/stringEndsWith of every string of length 1..{LASTFIT_LEN[tier][0]} over a,b with EVERY one of its substrings and every start '
+               f'index 0..len-1 or omitted; arrayIndexOf/arrayLastIndexOf of every array of length 1..{LASTFIT_LEN[tier][1]} over 1,"x",null with each value and every start index or omitted',
+               expected=lastfit_string_count(LASTFIT_LEN[tier][0]) + lastfit_array_count(LASTFIT_LEN[tier][1])),
     ]
 
 
-_CHECKS = {'containers': check_containers, 'strings': check_strings, 'regex': check_regex, 'url': check_url, 'fresh': check_fresh, 'callbacks': check_callbacks}
+_CHECKS = {'containers': check_containers, 'strings': check_strings, 'regex': check_regex, 'url': check_url, 'fresh': check_fresh, 'callbacks': check_callbacks, 'regexctx': check_regexctx, 'lastfit': check_lastfit}
 
 
 def replay(family, case):
